@@ -117,6 +117,10 @@ func runC11(env *lib.Env, rep *lib.Report) {
 	for _, seed := range []string{"t1x8", "interleaved", "t1x30", "catalog-split"} {
 		cfgs = append(cfgs, histCfg{Name: "real/" + seed, Opt: worldOpt{}, Seed: seed, Alpha: alpha, Depth: d, TickChoice: true, Reopen: true, Crash: true, Walk: true, OnlyWalk: true})
 	}
+	// refused row insertions (row over the size limit) between accepted ones: the refusal must leave the leaf as it was
+	refusing := alphaOpt{Tables: []string{"t1"}, Inserts: []int{1, 9}, Updates: true, FailingInsert: true}
+	cfgs = append(cfgs, histCfg{Name: "real/t1x8/refused-inserts", Opt: worldOpt{}, Seed: "t1x8", Alpha: refusing, Depth: d, TickChoice: true, Reopen: true, Crash: true, Walk: true, OnlyWalk: true},
+		histCfg{Name: "leaf3-int3/t1x30/refused-inserts", Opt: worldOpt{Leaf: 3, Internal: 3}, Seed: "t1x30", Alpha: refusing, Depth: d, TickChoice: true, Reopen: true, Crash: true, Walk: true, OnlyWalk: true})
 	rep.Bounds["depth"] = d
 	rep.Bounds["crash bound"] = 1
 	rep.Bounds["configs"] = cfgNames(cfgs)
